@@ -180,6 +180,16 @@ def _ctx_rules(ck: Check, prog: Program, b: FuncInfo) -> None:
     if len(val_calls) != 1:
         raise AnalysisError(f'{b.qualname}: expected one validate_method call, found {len(val_calls)}')
     vn, vc = val_calls[0]
+    # VALIDATE-ALWAYS: every return of bind is preceded by the validation (no fast path that skips it)
+    rets = [n for n in cfg.stmt_nodes() if isinstance(n.ast, ast.Return)]
+    skipping = [r_ for r_ in rets if not cfg.dominated_by(r_, [vn])]
+    ck.ob('VALIDATE-ALWAYS', f'{short(b.qualname)}: parameters are bound/validated on every path before the call is prepared', not skipping)
+    for r_ in skipping:
+        gs = [norm(g.src.ast) + ':' + g.label for g in guard_edges(cfg, vn)]
+        ck.finding('VALIDATE-ALWAYS', b.qualname, 'validation skipped on some path', b.module.rel, vn.line,
+                   f'`{norm(vc)[:70]}` only runs under {gs}: on the other path the method is called without binding its parameters, so a call '
+                   f'that a direct Python call could not bind (e.g. a missing required argument with empty params) runs the body / is reported '
+                   f'as -32000 instead of -32602')
     partials = [(n, c) for n in cfg.stmt_nodes() for c in calls_in(n) if dotted(c.func) in ('ft.partial', 'functools.partial', 'partial')]
     if len(partials) != 1:
         raise AnalysisError(f'{b.qualname}: expected one functools.partial call, found {len(partials)}')
@@ -313,6 +323,25 @@ def _bind_strict(ck: Check, prog: Program) -> None:
                 sv = st.targets[0].id
         if not bind_calls[0].args or dotted(bind_calls[0].args[0]) != sv:
             problems.append((vm.node.lineno, 'the signature handed to bind() is not the filtered signature'))
+    # the filtered signature is a pure function of (method, exclude): a hand-rolled cache must key on both
+    sig = bv.methods.get('signature')
+    if sig is not None:
+        ck.functions.add(sig.qualname)
+        pnames = [p_.arg for p_ in sig.params[1:]]
+        for x in walk_own(sig.node):
+            key = None
+            if isinstance(x, ast.Subscript) and dotted(x.value) and dotted(x.value).startswith('self.'):
+                key = x.slice
+            elif isinstance(x, ast.Call) and isinstance(x.func, ast.Attribute) and x.func.attr in ('get', 'setdefault', 'pop') and \
+                    dotted(x.func.value) and dotted(x.func.value).startswith('self.') and x.args:
+                key = x.args[0]
+            if key is not None:
+                used = {y.id for y in ast.walk(key) if isinstance(y, ast.Name)}
+                missing = [p_ for p_ in pnames if p_ not in used]
+                if missing:
+                    problems.append((x.lineno, f'`{norm(x)[:60]}` caches the filtered signature under a key that ignores {missing}: the first '
+                                     f'exclusion set used for a function is reused for every later one, so the context parameter stops being '
+                                     f'excluded (the client can supply it) or a bindable call is refused'))
     ck.ob('BIND-STRICT', 'BaseValidator binds with Signature.bind over the filtered signature; TypeError → ValidationError', not problems)
     for line, msg in problems:
         ck.finding('BIND-STRICT', b.qualname, msg[:60], b.module.rel, line, msg)
